@@ -592,4 +592,339 @@ theorem runL_inv (cap : Option Nat) (top : Bool) : (ps : List Prog) → (b : B) 
     | thrown => trivial
 end
 
+/-! ## fixed-size builders: the exact result (misuse-free programs) -/
+
+def fitsB (cap : Option Nat) (n : Nat) : Bool :=
+  match cap with
+  | none => true
+  | some c => decide (n ≤ c)
+
+theorem fitsB_mono (cap : Option Nat) (m n : Nat) (h : fitsB cap m = true) (hn : n ≤ m) : fitsB cap n = true := by
+  cases cap with
+  | none => rfl
+  | some c => simp only [fitsB, decide_eq_true_eq] at *; omega
+
+theorem add_fits (cap : Option Nat) (b : B) (bs : Bytes) (he : b.err = false) :
+    add cap b bs = if fitsB cap (b.res.length + bs.length) = true then { b with res := b.res ++ bs }
+      else { b with err := true } := by
+  unfold add
+  cases cap with
+  | none => simp [he, fitsB]
+  | some c =>
+    simp only [he, Bool.false_eq_true, if_false, fitsB, decide_eq_true_eq]
+    by_cases h : b.res.length + bs.length > c
+    · rw [if_pos h, if_neg (by omega)]
+    · rw [if_neg h, if_pos (by omega)]
+
+theorem derLen_length (n : Nat) : (derLen n).length = 1 + asn1Extra n := by
+  rw [derLen_eq]
+  by_cases h : asn1Extra n = 0
+  · simp [h]
+  · simp [h, natToBE_length]; omega
+
+theorem flush_asn1C (cap : Option Nat) (b1 c : B) (pre e : Bytes) (z : UInt8)
+    (herr : c.err = false) (hoff : c.off = pre.length) (hpll : c.pll = 1)
+    (hres : c.res = pre ++ [z] ++ e) :
+    flush cap true b1 c =
+      .ok (if e.length > 0xfffffffe then { b1 with err := true }
+           else if asn1Extra e.length = 0 ∨ fitsB cap (pre.length + (derLen e.length).length + e.length) = true
+             then { b1 with res := pre ++ derLen e.length ++ e }
+           else { b1 with err := true }) := by
+  obtain ⟨res, err, off, pll⟩ := c
+  simp only at herr hoff hpll hres
+  subst herr hoff hpll hres
+  unfold flush
+  have hL : (pre ++ [z] ++ e).length - 1 - pre.length = e.length := by
+    simp only [List.length_append, List.length_cons, List.length_nil]; omega
+  have hN : ¬ ((pre ++ [z] ++ e).length < 1 + pre.length) := by
+    simp only [List.length_append, List.length_cons, List.length_nil]; omega
+  simp only [Bool.false_eq_true, if_false, if_true, hN, hL, bne_self_eq_false]
+  by_cases g0 : e.length > 0xfffffffe
+  · simp only [g0, if_true]
+  · simp only [g0, if_false]
+    rw [set_mid]
+    by_cases hx : asn1Extra e.length = 0
+    · rw [if_pos hx, if_pos (Or.inl hx), derLen_eq, if_pos hx]
+    · rw [if_neg hx]
+      have hl := asn1Extra_bound e.length (by omega) hx
+      have hp := promote pre e z (asn1LenByte e.length) (asn1Extra e.length) hl
+      rw [set_mid] at hp
+      rw [add_fits cap _ _ rfl]
+      have hlen : (pre ++ [asn1LenByte e.length] ++ e).length + (zeros (asn1Extra e.length)).length
+          = pre.length + (derLen e.length).length + e.length := by
+        simp only [List.length_append, List.length_cons, List.length_nil, zeros, List.length_replicate,
+          derLen_length]; omega
+      simp only [hlen]
+      by_cases hf : fitsB cap (pre.length + (derLen e.length).length + e.length) = true
+      · rw [if_pos hf, if_pos (Or.inr hf)]
+        simp only [Bool.false_eq_true, if_false]
+        rw [hp]
+        simp only [bne_self_eq_false, Bool.false_eq_true, if_false]
+        rw [derLen_eq, if_neg hx]
+        simp
+      · have hor : ¬ (asn1Extra e.length = 0 ∨ fitsB cap (pre.length + (derLen e.length).length + e.length) = true) := by
+          intro h; rcases h with h | h
+          · exact hx h
+          · exact hf h
+        rw [if_neg hf, if_neg hor]
+        simp
+
+
+def PostC (cap : Option Nat) (b b' : B) (e : Option Bytes) : Prop :=
+  b'.off = b.off ∧ b'.pll = b.pll ∧
+  match e with
+  | some e => if fitsB cap (b.res.length + e.length) = true then b'.err = false ∧ b'.res = b.res ++ e
+              else b'.err = true
+  | none => b'.err = true
+
+theorem runP_errC (cap : Option Nat) (top : Bool) (p : Prog) (b : B) (hs : simpleP p = true) (he : b.err = true) :
+    runP cap top p b = .ok b := by
+  cases p with
+  | value ok bs => cases ok <;> simp_all [runP, add, simpleP]
+  | _ => simp_all [runP, add, simpleP]
+
+theorem runL_errC (cap : Option Nat) (top : Bool) : ∀ (ps : List Prog) (b : B), simpleL ps = true → b.err = true →
+    runL cap top ps b = .ok b
+  | [], b, _, _ => by simp [runL]
+  | p :: ps, b, hs, he => by
+    simp only [simpleL, Bool.and_eq_true] at hs
+    simp [runL, runP_errC cap top p b hs.1 he, runL_errC cap top ps b hs.2 he]
+
+theorem leaf_postC (cap : Option Nat) (b : B) (bs : Bytes) (he : b.err = false) :
+    PostC cap b (add cap b bs) (some bs) := by
+  rw [add_fits cap b bs he]
+  unfold PostC
+  by_cases h : fitsB cap (b.res.length + bs.length) = true
+  · simp [h, he]
+  · simp [h]
+
+theorem postC_err (cap : Option Nat) (b b' : B) (e : Option Bytes) (ho : b'.off = b.off) (hp : b'.pll = b.pll)
+    (he : b'.err = true) (hnf : ∀ x, e = some x → ¬ fitsB cap (b.res.length + x.length) = true) :
+    PostC cap b b' e := by
+  refine ⟨ho, hp, ?_⟩
+  cases e with
+  | none => exact he
+  | some x => simp only; rw [if_neg (hnf x rfl)]; exact he
+
+theorem postC_ok (cap : Option Nat) (b b' : B) (x : Bytes) (ho : b'.off = b.off) (hp : b'.pll = b.pll)
+    (he : b'.err = false) (hr : b'.res = b.res ++ x) (hf : fitsB cap (b.res.length + x.length) = true) :
+    PostC cap b b' (some x) := by
+  refine ⟨ho, hp, ?_⟩
+  simp only; rw [if_pos hf]; exact ⟨he, hr⟩
+
+theorem encP_lp_some (k : Nat) (body : List Prog) (x : Bytes) (h : encP (.lp k body) = some x) :
+    ∃ e, encL body = some e ∧ e.length < 256 ^ k ∧ x = natToBE k e.length ++ e := by
+  simp only [encP] at h
+  cases henc : encL body with
+  | none => simp [henc] at h
+  | some e =>
+    simp only [henc] at h
+    by_cases hk : e.length < 256 ^ k
+    · simp only [hk, if_true, Option.some.injEq] at h; exact ⟨e, rfl, hk, h.symm⟩
+    · simp [hk] at h
+
+theorem encP_asn1_some (t : UInt8) (body : List Prog) (x : Bytes) (h : encP (.asn1 t body) = some x) :
+    (t &&& 0x1f == 0x1f) = false ∧ ∃ e, encL body = some e ∧ ¬ e.length > 0xfffffffe ∧
+      x = t :: (derLen e.length ++ e) := by
+  simp only [encP] at h
+  by_cases ht : (t &&& 0x1f == 0x1f) = true
+  · simp [ht] at h
+  · simp only [ht, Bool.false_eq_true, if_false] at h
+    cases henc : encL body with
+    | none => simp [henc] at h
+    | some e =>
+      simp only [henc] at h
+      by_cases hk : e.length > 0xfffffffe
+      · simp [hk] at h
+      · simp only [hk, if_false, Option.some.injEq] at h
+        exact ⟨by simpa using ht, e, rfl, hk, h.symm⟩
+
+mutual
+theorem runP_specC (cap : Option Nat) (top : Bool) : (p : Prog) → (b : B) → simpleP p = true → b.err = false →
+    ∃ b', runP cap top p b = .ok b' ∧ PostC cap b b' (encP p)
+  | .uint w v, b, _, he => ⟨add cap b (natToBE w v), by simp [runP], by simpa [encP] using leaf_postC cap b _ he⟩
+  | .bytes bs, b, _, he => ⟨add cap b bs, by simp [runP], by simpa [encP] using leaf_postC cap b _ he⟩
+  | .value true bs, b, _, he => ⟨add cap b bs, by simp [runP], by simpa [encP] using leaf_postC cap b _ he⟩
+  | .value false bs, b, hs, _ => by simp [simpleP] at hs
+  | .unwrite _, b, hs, _ => by simp [simpleP] at hs
+  | .seterr, b, hs, _ => by simp [simpleP] at hs
+  | .throw, b, hs, _ => by simp [simpleP] at hs
+  | .pwrite, b, hs, _ => by simp [simpleP] at hs
+  | .lp k body, b, hs, he => by
+    have hz : (zeros k).length = k := by simp [zeros]
+    simp only [runP, he, Bool.false_eq_true, if_false]
+    rw [add_fits cap b (zeros k) he, hz]
+    by_cases hfit : fitsB cap (b.res.length + k) = true
+    · rw [if_pos hfit]
+      simp only [he, Bool.false_eq_true, if_false]
+      obtain ⟨c, hc, hoff, hpll, hpost⟩ :=
+        runL_specC cap false body ⟨b.res ++ zeros k, false, b.res.length, k⟩ (by simpa [simpleP] using hs) rfl
+          (by simpa [hz] using hfit)
+      rw [hc]; simp only [finish]
+      cases henc : encL body with
+      | none =>
+        rw [henc] at hpost
+        exact ⟨_, flush_err _ _ _ _ hpost, by simp [PostC, encP, henc]⟩
+      | some e =>
+        rw [henc] at hpost
+        simp only [List.length_append, hz] at hpost
+        by_cases hfe : fitsB cap (b.res.length + k + e.length) = true
+        · rw [if_pos hfe] at hpost
+          have := flush_lp cap { b with res := b.res ++ zeros k } c b.res (zeros k) e hpost.1 hoff
+            (by rw [hz]; exact hpll) hpost.2
+          rw [hz] at this
+          simp only [he] at this
+          refine ⟨_, this, ?_⟩
+          by_cases hk : e.length < 256 ^ k
+          · rw [if_pos hk]
+            have : encP (.lp k body) = some (natToBE k e.length ++ e) := by simp [encP, henc, hk]
+            rw [this]
+            exact postC_ok cap b _ _ rfl rfl rfl (by simp) (by
+              simp only [List.length_append, natToBE_length]; rw [← Nat.add_assoc]; exact hfe)
+          · rw [if_neg hk]
+            have : encP (.lp k body) = none := by simp [encP, henc, hk]
+            rw [this]; exact ⟨rfl, rfl, rfl⟩
+        · rw [if_neg hfe] at hpost
+          refine ⟨_, flush_err _ _ _ _ hpost, postC_err cap b _ _ rfl rfl rfl ?_⟩
+          intro x hx
+          obtain ⟨e', he', _, rfl⟩ := encP_lp_some k body x hx
+          rw [henc] at he'; cases he'
+          simp only [List.length_append, natToBE_length]; rw [← Nat.add_assoc]; exact hfe
+    · rw [if_neg hfit]
+      simp only [if_true]
+      refine ⟨_, rfl, postC_err cap b _ _ rfl rfl rfl ?_⟩
+      intro x hx
+      obtain ⟨e', _, _, rfl⟩ := encP_lp_some k body x hx
+      intro h; apply hfit
+      exact fitsB_mono cap _ _ h (by simp only [List.length_append, natToBE_length]; omega)
+  | .asn1 t body, b, hs, he => by
+    by_cases ht : (t &&& 0x1f == 0x1f) = true
+    · exact ⟨{ b with err := true }, by simp [runP, he, ht], by simp [PostC, encP, ht]⟩
+    · simp only [runP, he, Bool.false_eq_true, if_false, ht]
+      rw [add_fits cap b [t] he]
+      simp only [List.length_cons, List.length_nil]
+      -- any encoding is at least 2 bytes long
+      have hlen2 : ∀ x, encP (.asn1 t body) = some x → ∃ e, encL body = some e ∧ ¬ e.length > 0xfffffffe ∧
+          x.length = 1 + (derLen e.length).length + e.length ∧ 2 ≤ x.length := by
+        intro x hx
+        obtain ⟨_, e, h1, h2, rfl⟩ := encP_asn1_some t body x hx
+        have hd := derLen_length e.length
+        exact ⟨e, h1, h2, by simp only [List.length_cons, List.length_append]; omega,
+          by simp only [List.length_cons, List.length_append]; omega⟩
+      by_cases hf1 : fitsB cap (b.res.length + 1) = true
+      · rw [if_pos hf1]
+        simp only [he, Bool.false_eq_true, if_false]
+        rw [add_fits cap _ (zeros 1) (by rfl)]
+        simp only [List.length_append, List.length_cons, List.length_nil, zeros, List.length_replicate]
+        by_cases hf2 : fitsB cap (b.res.length + (0 + 1) + 1) = true
+        · rw [if_pos hf2]
+          simp only [Bool.false_eq_true, if_false]
+          obtain ⟨c, hc, hoff, hpll, hpost⟩ :=
+            runL_specC cap false body ⟨b.res ++ [t] ++ List.replicate 1 0, false, (b.res ++ [t]).length, 1⟩
+              (by simpa [simpleP] using hs) rfl (by simpa using hf2)
+          simp only [List.length_append, List.length_cons, List.length_nil] at hc
+          rw [hc]; simp only [finish]
+          cases henc : encL body with
+          | none =>
+            rw [henc] at hpost
+            exact ⟨_, flush_err _ _ _ _ hpost, by simp [PostC, encP, henc, ht]⟩
+          | some e =>
+            rw [henc] at hpost
+            simp only [List.length_append, List.length_cons, List.length_nil, List.length_replicate] at hpost
+            have hd := derLen_length e.length
+            by_cases hfe : fitsB cap (b.res.length + (0 + 1) + 1 + e.length) = true
+            · rw [if_pos hfe] at hpost
+              have := flush_asn1C cap { b with res := b.res ++ [t] ++ List.replicate 1 0 } c (b.res ++ [t]) e 0
+                hpost.1 hoff hpll (by simpa using hpost.2)
+              simp only [he] at this
+              refine ⟨_, this, ?_⟩
+              by_cases hk : e.length > 0xfffffffe
+              · rw [if_pos hk]
+                have : encP (.asn1 t body) = none := by simp [encP, henc, hk, ht]
+                rw [this]; exact ⟨rfl, rfl, rfl⟩
+              · rw [if_neg hk]
+                have hencP : encP (.asn1 t body) = some (t :: (derLen e.length ++ e)) := by
+                  simp [encP, henc, hk, ht]
+                by_cases hor : asn1Extra e.length = 0 ∨
+                    fitsB cap ((b.res ++ [t]).length + (derLen e.length).length + e.length) = true
+                · rw [if_pos hor, hencP]
+                  refine postC_ok cap b _ _ rfl rfl rfl (by simp) ?_
+                  simp only [List.length_cons, List.length_append]
+                  rcases hor with h0 | h
+                  · exact fitsB_mono cap _ _ hfe (by omega)
+                  · simp only [List.length_append, List.length_cons, List.length_nil] at h
+                    exact fitsB_mono cap _ _ h (by omega)
+                · rw [if_neg hor]
+                  refine postC_err cap b _ _ rfl rfl rfl ?_
+                  intro x hx
+                  rw [hencP] at hx; cases hx
+                  intro h; apply hor; right
+                  simp only [List.length_append, List.length_cons, List.length_nil] at h ⊢
+                  exact fitsB_mono cap _ _ h (by omega)
+            · rw [if_neg hfe] at hpost
+              refine ⟨_, flush_err _ _ _ _ hpost, postC_err cap b _ _ rfl rfl rfl ?_⟩
+              intro x hx
+              obtain ⟨e', he', _, hl, _⟩ := hlen2 x hx
+              rw [henc] at he'; cases he'
+              intro h; apply hfe
+              exact fitsB_mono cap _ _ h (by omega)
+        · rw [if_neg hf2]
+          simp only [if_true]
+          refine ⟨_, rfl, postC_err cap b _ _ rfl rfl rfl ?_⟩
+          intro x hx
+          obtain ⟨_, _, _, _, h2⟩ := hlen2 x hx
+          intro h; apply hf2
+          exact fitsB_mono cap _ _ h (by omega)
+      · rw [if_neg hf1]
+        simp only [if_true]
+        refine ⟨_, rfl, postC_err cap b _ _ rfl rfl rfl ?_⟩
+        intro x hx
+        obtain ⟨_, _, _, _, h2⟩ := hlen2 x hx
+        intro h; apply hf1
+        exact fitsB_mono cap _ _ h (by omega)
+theorem runL_specC (cap : Option Nat) (top : Bool) : (ps : List Prog) → (b : B) → simpleL ps = true → b.err = false →
+    fitsB cap b.res.length = true →
+    ∃ b', runL cap top ps b = .ok b' ∧ PostC cap b b' (encL ps)
+  | [], b, _, he, hfit => ⟨b, by simp [runL], postC_ok cap b b [] rfl rfl he (by simp) (by simpa using hfit)⟩
+  | p :: ps, b, hs, he, hfit => by
+    simp only [simpleL, Bool.and_eq_true] at hs
+    obtain ⟨b1, h1, ho1, hp1, hpost1⟩ := runP_specC cap top p b hs.1 he
+    cases hp : encP p with
+    | none =>
+      rw [hp] at hpost1
+      refine ⟨b1, by simp [runL, h1, runL_errC cap top ps b1 hs.2 hpost1], ho1, hp1, ?_⟩
+      simp [encL, hp, hpost1]
+    | some a =>
+      rw [hp] at hpost1
+      simp only at hpost1
+      by_cases hfa : fitsB cap (b.res.length + a.length) = true
+      · rw [if_pos hfa] at hpost1
+        obtain ⟨b2, h2, ho2, hp2, hpost2⟩ := runL_specC cap top ps b1 hs.2 hpost1.1
+          (by rw [hpost1.2]; simpa using hfa)
+        refine ⟨b2, by simp [runL, h1, h2], by rw [ho2, ho1], by rw [hp2, hp1], ?_⟩
+        cases hl : encL ps with
+        | none =>
+          rw [hl] at hpost2
+          simp [encL, hp, hl, hpost2]
+        | some r =>
+          rw [hl] at hpost2
+          simp only [encL, hp, hl, List.length_append]
+          simp only [hpost1.2, List.length_append] at hpost2
+          by_cases hfr : fitsB cap (b.res.length + a.length + r.length) = true
+          · rw [if_pos hfr] at hpost2
+            rw [if_pos (by rw [← Nat.add_assoc]; exact hfr)]
+            exact ⟨hpost2.1, by rw [hpost2.2, List.append_assoc]⟩
+          · rw [if_neg hfr] at hpost2
+            rw [if_neg (by rw [← Nat.add_assoc]; exact hfr)]
+            exact hpost2
+      · rw [if_neg hfa] at hpost1
+        refine ⟨b1, by simp [runL, h1, runL_errC cap top ps b1 hs.2 hpost1], ho1, hp1, ?_⟩
+        cases hl : encL ps with
+        | none => simp [encL, hp, hl, hpost1]
+        | some r =>
+          simp only [encL, hp, hl, List.length_append]
+          rw [if_neg (fun h => hfa (fitsB_mono cap _ _ h (by omega)))]
+          exact hpost1
+end
+
 end XC.C22
